@@ -218,7 +218,7 @@ pub(crate) fn c01_case(rep: &mut Report, m: &Model, seed: u64, idx: u64) {
     }
     // path F: a clone of a message's attribute list is changed; each of the two objects must encode its own content
     if idx % 5 == 2 {
-        if let Some((tag, name)) = m.groups.last().and_then(|g| g.attrs.keys().next().map(|k| (g.tag, k.clone()))) {
+        if let Some((tag, name)) = m.groups.iter().enumerate().filter(|(i, g)| m.groups[..*i].iter().all(|h| h.tag != g.tag)).filter_map(|(_, g)| g.attrs.keys().next().map(|k| (g.tag, k.clone()))).last() {
             let o = catch(|| {
                 let r1 = mirror::to_ipp(m);
                 let warm = r1.to_bytes();
@@ -397,7 +397,28 @@ pub(crate) fn c03_case(rep: &mut Report, m: &Model, seed: u64, idx: u64, trials:
             rep.count("instances_built_by_additions", 1);
         }
         let enc = catch(|| {
-            let r = if via_add && t % 4 == 3 {
+            // last instance: a clone of ANOTHER message's attribute list (one value differs, already encoded once), brought to
+            // this message's content by one add(): the clone must encode its own content, not its sibling's
+            // (an attribute of the first group of its kind: that is where add() puts a value)
+            let sibling = if t + 1 == trials {
+                m.groups.iter().enumerate().filter(|(i, g)| m.groups[..*i].iter().all(|h| h.tag != g.tag)).find_map(|(_, g)| g.attrs.iter().next().map(|(k, v)| (g.tag, k.clone(), v.clone())))
+            } else {
+                None
+            };
+            let r = if let Some((tag, name, val)) = sibling {
+                let mut other = m.clone();
+                let gi = other.groups.iter().position(|g| g.tag == tag).unwrap();
+                let target = other.groups[gi].attrs.get(&name).cloned().unwrap_or(val);
+                other.groups[gi].attrs.insert(name.clone(), ippref::MVal::Integer(-424242));
+                let r0 = mirror::to_ipp(&other);
+                std::hint::black_box(r0.to_bytes().len());
+                let mut r = IppRequestResponse::new_response(IppVersion(m.version), ipp::model::StatusCode::SuccessfulOk, m.id);
+                r.header_mut().operation_or_status = m.code;
+                *r.attributes_mut() = r0.attributes().clone();
+                r.attributes_mut().add(mirror::delim(tag), IppAttribute::new(&name, mirror::to_ipp_value(&target)));
+                std::hint::black_box(r0.to_bytes().len());
+                r
+            } else if via_add && t % 4 == 3 {
                 mirror::to_ipp_mixed(m, seed ^ idx.wrapping_mul(31) ^ t as u64)
             } else if via_add {
                 mirror::to_ipp_via_add(m, seed ^ idx.wrapping_mul(31) ^ t as u64)
